@@ -192,3 +192,25 @@ func VerifC20Sequences() {
 	}
 	verifnd.Reach("C20.seq.done")
 }
+
+// VerifC08Region: a region query with arbitrary float32 corners (every bit pattern, including NaN and the
+// infinities) against a small grid with one stored plane: no index out of range, no impossible allocation.
+func VerifC08Region() {
+	g := NewRegularGrid(1, 1, 2)
+	g.InsertQuad(menuQuad(0))
+	g.InsertQuad(menuQuad(4))
+	min := Vector3f{verifnd.F32(), verifnd.F32(), verifnd.F32()}
+	max := Vector3f{verifnd.F32(), verifnd.F32(), verifnd.F32()}
+	res := g.GetRegion(min, max)
+	verifnd.Assert(len(res) <= 2, "C08.region.returns_stored_planes_only")
+	verifnd.Reach("C08.region.done")
+}
+
+// VerifC08Ray: a ground-plane ray with arbitrary float32 end points against the same grid: no panic.
+func VerifC08Ray() {
+	g := NewRegularGrid(1, 1, 2)
+	g.InsertQuad(menuQuad(0))
+	r := Ray{From: Vector3f{verifnd.F32(), verifnd.F32(), verifnd.F32()}, To: Vector3f{verifnd.F32(), verifnd.F32(), verifnd.F32()}}
+	g.IntersectQuad(r)
+	verifnd.Reach("C08.ray.done")
+}
